@@ -135,28 +135,39 @@ def assocSet {κ ν} [DecidableEq κ] (l : List (κ × ν)) (k : κ) (v : ν) : 
 def assocErase {κ ν} [DecidableEq κ] (l : List (κ × ν)) (k : κ) : List (κ × ν) :=
   l.filter (fun p => p.1 ≠ k)
 
+/-- the part of `put_sentence` after the tag block has been initialised: `g` is the sentence's
+group (`none`: no tag block or no `g:` field) -/
+def tbqStep {α} (st : TbqState α) (x : α) (g : Option TBGroup) : TbqState α × List (List α) :=
+  match g with
+  | none => (st, [[x]])
+  | some g =>
+    if g.tot = 1 then (st, [[x]])
+    else if g.num = 1 then ({ groups := assocSet st.groups g.gid (g.tot, [x]) }, [])
+    else
+      match st.groups.lookup g.gid with
+      | none => (st, [])
+      | some (tot, xs) =>
+        let xs' := xs ++ [x]
+        if g.tot ≠ xs'.length then ({ groups := assocSet st.groups g.gid (tot, xs') }, [])
+        else ({ groups := assocErase st.groups g.gid }, [xs'])
+
 /-- `TagBlockQueue.put_sentence` (with the repaired handling of malformed tag blocks): new state
 and the lists put on the queue. `tb` is the sentence's raw tag block. -/
 def tbqPut {α} (codes : List (String × Nat)) (st : TbqState α) (x : α) (tb : Option Bytes) :
     Except Err (TbqState α × List (List α)) :=
   match tb with
-  | none => .ok (st, [[x]])
+  | none => .ok (tbqStep st x none)
   | some raw =>
     match tbInit codes raw with
     | .error e =>
       if e.isValueError ∨ e = .typeError then .ok (st, [[x]]) else .error e
-    | .ok t =>
-      match t.group with
-      | none => .ok (st, [[x]])
-      | some g =>
-        if g.tot = 1 then .ok (st, [[x]])
-        else if g.num = 1 then .ok ({ groups := assocSet st.groups g.gid (g.tot, [x]) }, [])
-        else
-          match st.groups.lookup g.gid with
-          | none => .ok (st, [])
-          | some (tot, xs) =>
-            let xs' := xs ++ [x]
-            if g.tot ≠ xs'.length then .ok ({ groups := assocSet st.groups g.gid (tot, xs') }, [])
-            else .ok ({ groups := assocErase st.groups g.gid }, [xs'])
+    | .ok t => .ok (tbqStep st x t.group)
+
+/-- run the queue over sentences whose group is already known; one output per input position -/
+def tbqRun {α} : TbqState α → List (α × Option TBGroup) → List (List (List α))
+  | _, [] => []
+  | st, (x, g) :: rest =>
+    let (st', out) := tbqStep st x g
+    out :: tbqRun st' rest
 
 end Model
